@@ -104,7 +104,7 @@ type Exec struct {
 	aborting bool
 	Fail     *Failure
 	finished chan struct{}
-	objHash u64map
+	objHash  u64map
 	Steps    int
 	envHash  uint64
 	Out      map[string]any
